@@ -21,7 +21,8 @@ VARIANTS = [
     "protocol 47 play-state Set Compression in mid-stream",
     "350..3000 packets queued in one go",
     "VarInt-boundary and threshold+-1 sizes",
-    "very compressible packets (3000..70000 equal bytes)"
+    "very compressible packets (3000..70000 equal bytes)",
+    "second session abandoned at once (connect(); disconnect() during the hand-over)"
 ]
 RUNS = {'quick': 9000, 'thorough': 300000}
 WALL_CAP = {'quick': 200, 'thorough': 3300}
@@ -277,6 +278,13 @@ def scenario_for(seed, index, tier):
         sc['variant'] = 'three-cuts'
     else:
         sc['variant'] = 'whole-frames'
+    if sc.get('second') and sc.get('second_via') == 'user' and \
+            make_rng('abandon', ID, seed, index).random() < 0.3:
+        # change of mind: the second connect() is followed at once by an
+        # ordinary disconnect() - while the first session's networking
+        # thread may still be winding down.  What connect() queued (the
+        # handshake and the login start) is still sent before the close.
+        sc['second']['abandon'] = True
     rz = make_rng('compressible', ID, seed, index)
     T_ = sc['threshold']
     if T_ is not None and T_ >= 0 and not sc.get('second') and \
@@ -474,6 +482,12 @@ def _execute(scenario, tape, want_world=False):
                 if k == 0 or not via_handler:
                     st['cur'] = k
                     c['connect'] = w.api('connect', conn.connect)
+                if sc.get('abandon'):
+                    c['disc_started'] = True
+                    c['disc'] = w.api('disconnect', conn.disconnect)
+                    c['quiet'] = w.wait_until(
+                        lambda: common.all_net_done(w.sim), 10000000)
+                    continue
                 w.wait_until(lambda: c['in_play'] or c['errs'] or
                              S[0]['errs'], 30000000)
                 if sc.get('poke_negative') and not c['errs']:
@@ -533,6 +547,11 @@ def _execute(scenario, tape, want_world=False):
                     continue
                 c['disc_started'] = True
                 c['disc'] = w.api('disconnect', conn.disconnect)
+                if k + 1 < len(S) and S[k + 1]['sc'].get('abandon'):
+                    # (the next connect() comes at once: the old thread is
+                    # probably still there)
+                    c['quiet'] = True
+                    continue
                 c['quiet'] = w.wait_until(
                     lambda: common.all_net_done(w.sim), 10000000)
         w.sim.spawn(user, 'user0')
@@ -599,6 +618,27 @@ def check(scenario, w, st, res, exp_in, exp_out, ids, k=0, top=None):
         return
     app = w.server.apps[k]
     ob()
+    if scenario.get('abandon'):
+        # connect(); disconnect() at once: the two packets connect() queued
+        # arrive whole, then the close
+        res.probes['second-session-abandoned-at-once'] = 1
+        c_ = st.get('connect')
+        if c_ is not None and c_.ok and st.get('disc') is not None and \
+                st['disc'].ok:
+            ob(2)
+            if app.errors:
+                # (a thread of the first session that was still reacting to
+                # a packet may have put an answer of its own into this
+                # stream: C16's business, known finding 3)
+                res.probes['abandoned-session-stream-not-parsed'] = 1
+            elif app.handshake is None or app.login_name is None:
+                V.append(('C01/queued-before-disconnect-lost',
+                          {'handshake': app.handshake,
+                           'login_name': app.login_name,
+                           'server_errors': app.errors[:2]}))
+            elif not app.fin_seen:
+                V.append(('C01/not-closed', None))
+        return
     if st['errs']:
         V.append(('C01/reader-error:%s' % type(st['errs'][0]).__name__,
                   str(st['errs'][0])[:200]))
